@@ -62,13 +62,22 @@ type flow struct {
 	actionTransformer ActionTransformer
 	terminate         Terminate
 	sequenceFlowId    *string
-	locator           data.IFlowDataLocator
-	retry             *Retry
+	// the sequence flow that led the flow to its current node
+	sequenceFlow *SequenceFlow
+	locator      data.IFlowDataLocator
+	retry        *Retry
 }
 
 func (f *flow) SequenceFlow() *SequenceFlow {
 	if f.sequenceFlowId == nil {
 		return nil
+	}
+	// the flow knows which sequence flow it took: looking it up by id in the
+	// definitions fails when they are not the process's own document
+	// (NewProcess accepts any definitions), and a parallel join then cannot
+	// tell its incoming flows apart
+	if f.sequenceFlow != nil {
+		return f.sequenceFlow
 	}
 	seqFlow, present := f.definitions.FindBy(schema.ExactId(*f.sequenceFlowId).
 		And(schema.ElementType((*schema.SequenceFlow)(nil))))
@@ -188,6 +197,7 @@ func (f *flow) handleSequenceFlow(ctx context.Context, sequenceFlow *SequenceFlo
 	if flowNode, found := f.flowNodeMapping.ResolveElementToFlowNode(target); found {
 		if idPtr, present := sequenceFlow.Id(); present {
 			f.sequenceFlowId = idPtr
+			f.sequenceFlow = sequenceFlow
 		} else {
 			f.tracer.Send(ErrorTrace{
 				Error: errors.NotFoundError{Expected: fmt.Sprintf("id for sequence flow %#v", sequenceFlow)},
@@ -244,6 +254,7 @@ func (f *flow) handleAdditionalSequenceFlow(
 			flowable.id = flowId // important: override id with pre-generated one
 			if idPtr, present := sequenceFlow.Id(); present {
 				flowable.sequenceFlowId = idPtr
+				flowable.sequenceFlow = sequenceFlow
 			} else {
 				f.tracer.Send(ErrorTrace{
 					Error: errors.NotFoundError{Expected: fmt.Sprintf("id for sequence flow %#v", sequenceFlow)},
